@@ -24,12 +24,12 @@ SPEC = dict(
                  'g++ 12 ASan/UBSan/LSan and valgrind memcheck report what they claim to report'],
     legs=[
         Leg('regress', 'h_string', 'asan', opts={'mode': 'regress'}, quick=1, thorough=1, workers=1, leaks=True, min_cases=1),
-        Leg('model', 'h_string', 'asan', opts={'mode': 'model'}, quick=12000, thorough=1200000, workers=16, leaks=True),
-        Leg('memcheck', 'h_string', 'plain', opts={'mode': 'model'}, quick=240, thorough=6000, workers=16, valgrind=True),
+        Leg('model', 'h_string', 'asan', opts={'mode': 'model'}, quick=36000, thorough=1800000, workers=16, leaks=True),
+        Leg('memcheck', 'h_string', 'plain', opts={'mode': 'model'}, quick=720, thorough=18000, workers=16, valgrind=True),
     ],
     min_stats={'regress': {'regress_checks': 1000},
                'model': {'transitions_inline_to_heap': 20000, 'transitions_heap_to_inline': 20000, 'cases_with_inline_to_heap': 10000,
-                         'cases_with_heap_to_inline': 10000, 'alias_self': 50000, 'alias_own_pointer': 50000, 'alias_substring_of_self': 50000,
+                         'cases_with_heap_to_inline': 10000, 'alias_self': 50000, 'alias_own_pointer': 50000, 'alias_substring_of_self': 50000, 'near_affix_operands': 500, 'distances_below_a_given_maxResult': 1000,
                          'ops_ending_at_exactly_cap': 10000, 'ops_ending_at_cap_plus_1': 10000, 'flatten_audits': 100000,
                          'unterminated_rejected': 50000, 'table_replacements_made': 20000, 'arg_substitutions': 50000,
                          'arg_substitutions_with_longer_token_sharing_the_prefix': 1000, 'searches_found': 5000, 'cases_big': 100},
